@@ -20,6 +20,8 @@ import copy
 import itertools
 import json
 
+import numpy as np
+
 from .. import apicalls, extract, gen, tlc
 from ..common import MachineryFailure, harness_errors, pmap
 from . import shared
@@ -42,8 +44,18 @@ def pair_cases():
     for ing, var in (("array", dict(array="A2")), ("labels", dict(labels="L2")), ("func", dict(func="ffill")), ("chunks", dict(chunks=3))):
         add(apicalls.SCANBASE, ing, var)
         add(dict(apicalls.SCANBASE, func="bfill"), ing, var) if ing != "func" else None
-    for ing, var in (("array", dict(array="A2")), ("labels", dict(labels="L2")), ("func", dict(func="nanmax"))):
+    for ing, var in (("array", dict(array="A2")), ("labels", dict(labels="L2")), ("func", dict(func="nanmax")), ("sort", dict(sort=False)), ("engine", dict(engine="flox")),
+                     ("method", dict(method=None))):
         add(apicalls.UNKBASE, ing, var)
+        if ing != "labels":
+            add(dict(apicalls.UNKBASE, labels="L2"), ing, var)     # labels whose order of appearance is not the sorted order
+    # Aggregation INSTANCES handed in as `func` (a user-defined one and the library's own blueprint object)
+    ub = dict(apicalls.BASE, func="user_range", func_obj="user:user_range", ddof=None, min_count=None, fill_value=-1.0, expected=[0, 1, 2, 3])
+    add(ub, "fill_value", dict(fill_value=-2.0))
+    add(ub, "array", dict(array="A3"))
+    rb = dict(apicalls.BASE, func="nanmax", func_obj="registry:nanmax", ddof=None, min_count=None, fill_value=None, expected=None)
+    add(rb, "array", dict(array="A3"))
+    add(dict(rb, array="A3"), "func_obj", dict(func_obj=None, array="A1", expected=[0, 1, 2, 3], fill_value=np.nan))
     # triples: three variables of one "Dataset"
     add(apicalls.BASE, "ddof", dict(ddof=1), extra=dict(apicalls.BASE, ddof=2))
     add(apicalls.ARGBASE, "array", dict(array="A2"), extra=dict(apicalls.ARGBASE, func="nanargmin"))
@@ -55,7 +67,14 @@ def pair_cases():
 HIST_CALLS = [apicalls.BASE, dict(apicalls.BASE, ddof=1), dict(apicalls.BASE, array="A2"), dict(apicalls.BASE, labels="L2"), dict(apicalls.BASE, method="cohorts"),
               dict(apicalls.BASE, method="blockwise", labels="L_CONF", chunks=3), dict(apicalls.BASE, method="blockwise", labels="L_CONF", chunks=2),
               dict(apicalls.BASE, min_count=2), apicalls.ARGBASE, dict(apicalls.ARGBASE, array="A2"), apicalls.SCANBASE, dict(apicalls.SCANBASE, array="A2"),
-              dict(apicalls.BASE, chunks=None), dict(apicalls.BASE, chunks=None, engine="flox"), apicalls.QBASE, dict(apicalls.QBASE, q=0.75)]
+              dict(apicalls.BASE, chunks=None), dict(apicalls.BASE, chunks=None, engine="flox"), apicalls.QBASE, dict(apicalls.QBASE, q=0.75),
+              # the same Aggregation instances reused across calls with other dtypes / fills, and the registry blueprint handed in as an object
+              dict(apicalls.BASE, func="nanmax", func_obj="registry:nanmax", array="A3", ddof=None, min_count=None, fill_value=None, expected=None),
+              dict(apicalls.BASE, func="nanmax", ddof=None, min_count=None, fill_value=np.nan, expected=[0, 1, 2, 3]),
+              dict(apicalls.BASE, func="nanmax", ddof=None, min_count=None, fill_value=np.nan, expected=[0, 1, 2, 3], chunks=None),
+              dict(apicalls.BASE, func="user_range", func_obj="user:user_range", array="A3", ddof=None, min_count=None, fill_value=-1, expected=[0, 1, 2, 3]),
+              dict(apicalls.BASE, func="user_range", func_obj="user:user_range", ddof=None, min_count=None, fill_value=np.nan, expected=[0, 1, 2, 3]),
+              dict(apicalls.BASE, func="user_range", func_obj="user:user_range", ddof=None, min_count=None, fill_value=-2.0, expected=[0, 1, 2, 3])]
 
 
 def memo_tables():
